@@ -37,10 +37,14 @@ def main():
         bad = [l for l in lines if "FAILED" in l or l.startswith("error") or (l.startswith("test result") and " 0 failed" not in l)]
         report["baseline_confirmed"] = "passes" if results and not bad else "FAILS: " + " | ".join(bad[:4])
         shutil.copy(f"{src}/demo.rs", f"{wt}/cozy-chess/tests/demo.rs") if os.path.isdir(f"{wt}/cozy-chess/tests") else (os.makedirs(f"{wt}/cozy-chess/tests"), shutil.copy(f"{src}/demo.rs", f"{wt}/cozy-chess/tests/demo.rs"))
-        d1 = sh("cargo test --offline -p cozy-chess --test demo 2>&1 | tail -15", cwd=wt)
+        meta_in = json.load(open(f"{src}/meta.json"))
+        pext_only = bool(meta_in.get("pext_only"))
+        demo_cmd = ('RUSTFLAGS="-C target-feature=+bmi2" cargo test --offline -p cozy-chess --features pext --test demo 2>&1 | tail -15'
+                    if pext_only else "cargo test --offline -p cozy-chess --test demo 2>&1 | tail -15")
+        d1 = sh(demo_cmd, cwd=wt)
         with_fail = "test result: FAILED" in d1.stdout or "panicked" in d1.stdout
         sh(f"git apply -R --whitespace=nowarn {src}/patch.diff", cwd=wt)
-        d2 = sh("cargo test --offline -p cozy-chess --test demo 2>&1 | tail -15", cwd=wt)
+        d2 = sh(demo_cmd, cwd=wt)
         without_pass = "test result: ok" in d2.stdout
         report["demo_confirmed"] = f"fails with the change: {with_fail}; passes without it: {without_pass}"
         ok = report["baseline_confirmed"] == "passes" and with_fail and without_pass
@@ -60,7 +64,7 @@ def main():
     meta["confirmed_by"] = "tools/validate_seeded.py: scratch worktree of /repo HEAD; `cargo test --workspace --no-fail-fast --offline` with the patch; demo as cozy-chess/tests/demo.rs with and without the patch"
     json.dump(meta, open(f"{dst}/meta.json", "w"), indent=1)
     # step 2: which checks catch it
-    r = sh(f"python3 /verif/tools/mutant_sweep.py patch {sid} {dst}/patch.diff --runs 16384", timeout=7200)
+    r = sh(f"python3 /verif/tools/mutant_sweep.py patch {sid} {dst}/patch.diff --runs 16384" + (" --pext" if meta.get("pext_only") else ""), timeout=7200)
     print(r.stdout[-1500:])
     try:
         res = json.loads(r.stdout.strip().splitlines()[-1])
